@@ -1,9 +1,9 @@
 (* C07/Model.v — what a save does to the image object, call by call.
-   Counterparts in /repo/nibabel (as they are now, with fix 1512db03 applied):
+   Counterparts in /repo/nibabel (as they are now, with fixes 1512db03 and ca93f157 applied):
      analyze.py   AnalyzeImage.to_file_map (save consumables; dtype override; make writer;
                   try: open, set slope/inter, write header, seek_tell, write slabs, close;
                   finally: restore)                                         -> analyze_core
-     nifti1.py    Nifti1Pair.to_file_map (alias finalise / restore around the above),
+     nifti1.py    Nifti1Pair.to_file_map (alias finalise / restore of alias AND header datatype, fix ca93f157),
                   Nifti1Pair/Nifti1Image.update_header (magic), Nifti1Header.write_to
                   (automatic vox_offset, extender, extensions)              -> nifti_save, header_write
      spm99analyze.py Spm99AnalyzeImage.to_file_map (.mat after the image)   -> mat_save
@@ -198,18 +198,21 @@ Section Env.
     then bind (mod_hdr rst) (fun _ => fail EWriter)
     else finally (analyze_body K scale_me out_dtype) (with_hdr rst))))).
 
-  (* Nifti1Pair.to_file_map: img_dtype = get_data_dtype(); get_data_dtype(finalize=True);
-     try: super().to_file_map  finally: set_data_dtype(img_dtype) *)
+  (* Nifti1Pair.to_file_map (with fix ca93f157): img_dtype = get_data_dtype();
+     hdr_dtype = header.get_data_dtype(); get_data_dtype(finalize=True);
+     try: super().to_file_map
+     finally: header.set_data_dtype(hdr_dtype); set_data_dtype(img_dtype) *)
   Definition nifti_save (K : klass) (od : option Z) : M unit :=
     bind get_img (fun i =>
+    let hdr_dtype := dt (ih i) in
     match alias i with
-    | None => finally (analyze_core K od) (with_hdr (set_dt (dt (ih i))))
+    | None => finally (analyze_core K od) (fun x => with_hdr (set_dt hdr_dtype) (with_hdr (set_dt hdr_dtype) x))
     | Some a =>
       match resolve a (data i) with
       | None => fail EValue
       | Some r =>
         bind (mod_img (fun x => with_alias None (with_hdr (set_dt r) x))) (fun _ =>
-        finally (analyze_core K od) (with_alias (Some a)))
+        finally (analyze_core K od) (fun x => with_alias (Some a) (with_hdr (set_dt hdr_dtype) x)))
       end
     end).
 
@@ -256,17 +259,15 @@ End Env.
 Definition healthy : nat -> bool := fun _ => false.
 Definition fail_at (k : nat) : nat -> bool := fun n => Nat.eqb n k.
 
-(* the state a save is allowed to leave behind, as a function of the initial state alone:
-   everything as before — except that a pending alias leaves the dtype it resolved to in the
-   header (finding S-C07b) *)
-Definition with_dt (r : Z) (i : img) : img := with_hdr (set_dt r) i.
+(* the state a save leaves behind, as a function of the initial state alone: the state
+   update_header produces (= the initial state for a harmonised image) *)
 Definition expected (resolve : al -> Z -> option Z) (K : klass) (i : img) : img :=
   match fam K with
   | FAnalyze =>
     if nifti K then
       match alias i with
       | None => harm K i
-      | Some a => match resolve a (data i) with None => i | Some r => harm K (with_dt r i) end
+      | Some a => match resolve a (data i) with None => i | Some _ => harm K i end
       end
     else i
   | _ => i
@@ -274,10 +275,3 @@ Definition expected (resolve : al -> Z -> option Z) (K : klass) (i : img) : img 
 
 (* the image is in the state its constructor / loader leaves it in *)
 Definition harmonised (K : klass) (i : img) : Prop := nifti K = true -> magic (ih i) = kmagic K.
-
-(* no pending alias, or one that resolves to what the header already says (or cannot resolve) *)
-Definition alias_stable (resolve : al -> Z -> option Z) (i : img) : Prop :=
-  match alias i with
-  | None => True
-  | Some a => match resolve a (data i) with None => True | Some r => r = dt (ih i) end
-  end.
